@@ -242,15 +242,17 @@ func TestPropTombstoneCrash(t *testing.T) {
 		st, _ := os.Stat(tmp)
 		offs := truncationOffsets(st.Size(), oldSize)
 		for i, off := range offs {
-			img, err := copyDir(imgA)
-			if err != nil {
-				t.Fatalf("harness: %v", err)
-			}
-			if err := os.Truncate(findTmp(img), off); err != nil {
-				t.Fatalf("harness: %v", err)
-			}
-			examine(img, fmt.Sprintf("crash with .tombstone.tmp cut at %d of %d bytes", off, st.Size()), i%8 == 0)
-			os.RemoveAll(img)
+			func() {
+				img, err := copyDir(imgA)
+				if err != nil {
+					t.Fatalf("harness: %v", err)
+				}
+				defer os.RemoveAll(img) // also when examine fails the case
+				if err := os.Truncate(findTmp(img), off); err != nil {
+					t.Fatalf("harness: %v", err)
+				}
+				examine(img, fmt.Sprintf("crash with .tombstone.tmp cut at %d of %d bytes", off, st.Size()), i%8 == 0)
+			}()
 			rec.Class("crash:image:truncated-tmp")
 		}
 		examine(imgA, "crash at tsm1.tombstone.after-tmp-write", true)
